@@ -530,8 +530,48 @@ fn op_fibex_lookup(toks: &[Tok], prop: &str) -> Outcome {
     Outcome { result: w.0, oracle }
 }
 
+// =============================================================================== C02
+/// 60 SPECDEC: the implementation's verdict in the vocabulary of Spec/Layout.v
+fn op_specdec(toks: &[Tok], _prop: &str) -> Outcome {
+    use dlt_core::parse::{dlt_message, DltParseError, ParsedMessage};
+    let mut r = R::new(toks);
+    let sh = r.bool();
+    let bs = r.b();
+    let mut w = W::new();
+    match guarded(|| dlt_message(&bs, None, sh).map(|(rest, pm)| (rest.len(), pm))) {
+        None => w.n(9),
+        Some(Ok((rest, ParsedMessage::Item(m)))) => {
+            w.n(0);
+            w.msg(&m);
+            w.n((bs.len() - rest) as u128);
+        }
+        Some(Ok(_)) => w.n(2),
+        Some(Err(DltParseError::IncompleteParse { .. })) => w.n(1),
+        Some(Err(_)) => w.n(2),
+    }
+    Outcome { result: w.0, oracle: vec![] }
+}
+
+/// 61 SPECENC: the implementation's bytes for a message
+fn op_specenc(toks: &[Tok], _prop: &str) -> Outcome {
+    let mut r = R::new(toks);
+    let m = r.msg();
+    let mut w = W::new();
+    w.bool(crate::genmsg::wf_message(&m));
+    match guarded(|| m.as_bytes()) {
+        None => w.n(1),
+        Some(b) => {
+            w.n(0);
+            w.b(&b);
+        }
+    }
+    Outcome { result: w.0, oracle: vec![] }
+}
+
 pub fn run_case5(prop: &str, op: u32, toks: &[Tok]) -> Outcome {
     match op {
+        60 => op_specdec(toks, prop),
+        61 => op_specenc(toks, prop),
         42 => op_real(toks, prop),
         50 => op_fibex(toks, prop),
         51 => op_fibex_lookup(toks, prop),
